@@ -152,8 +152,10 @@ class TimeTravelHistory(RuleBasedStateMachine):
             h = h + ' ' + ex
         else:
             b = 'preempt { write("X"); %s } ' % ex + b
-        self.segments.append('for (int w%d = 0; w%d < %d; w%d += 1) { int pg = 0; write(w%d); try { %s } %s { %s } write("."); }' % (
-            u, u, n, u, u, b, kind, h))
+        # the loop may also call a you-function that enters a try of its own (shared try context: try_fp, defeat word)
+        inner = ['', '', 'write(@y_stop(w%d));' % u, 'write(@y_undo(w%d));' % u, 'g1 = @y_stop(%d);' % n][(n + len(body) + len(ex)) % 5]
+        self.segments.append('for (int w%d = 0; w%d < %d; w%d += 1) { int pg = 0; write(w%d); try { %s } %s { %s } %s write("."); }' % (
+            u, u, n, u, u, b, kind, h, inner))
 
     @rule(which=st.sampled_from(['@y_undo', '@y_stop', '@y_spec']), k=SMALL)
     def add_call_you(self, which, k):
